@@ -61,6 +61,13 @@ pub struct ExecLog {
     pub termination: Option<Termination>,
     /// context_switches()/clock observed at the first op of the execution (C14)
     pub initial_world: Option<(usize, usize, Vec<u32>)>,
+    /// std-side status table: the op each logical task is executing right now (None = not started
+    /// or past its last op)
+    pub cur_pc: Vec<Option<usize>>,
+    /// logical tasks whose op loop has ended (they may still be running destructors)
+    pub exiting: Vec<bool>,
+    /// logical tasks for which a Join has returned (definitely finished)
+    pub joined: Vec<bool>,
 }
 
 impl ExecLog {
@@ -101,7 +108,7 @@ impl Sink {
     pub fn take(&self) -> Vec<ExecLog> {
         std::mem::take(&mut *self.logs.lock().unwrap())
     }
-    fn with_current<R>(&self, f: impl FnOnce(&mut ExecLog) -> R) -> R {
+    pub fn with_current<R>(&self, f: impl FnOnce(&mut ExecLog) -> R) -> R {
         let mut g = self.logs.lock().unwrap();
         f(g.last_mut().expect("no current execution"))
     }
@@ -265,7 +272,28 @@ enum RwG<'a> {
     W(RwLockWriteGuard<'a, i64>),
 }
 
+/// Keeps the std-side status table truthful when a task's future is dropped without completing
+/// (abort): the task is no longer inside any op.
+struct ExitGuard {
+    sink: Sink,
+    me: usize,
+}
+
+impl Drop for ExitGuard {
+    fn drop(&mut self) {
+        if let Ok(mut g) = self.sink.logs.lock() {
+            if let Some(l) = g.last_mut() {
+                if self.me < l.cur_pc.len() {
+                    l.cur_pc[self.me] = None;
+                    l.exiting[self.me] = true;
+                }
+            }
+        }
+    }
+}
+
 async fn run_task(w: Arc<World>, me: usize, is_async: bool) {
+    let _exit_guard = ExitGuard { sink: w.sink.clone(), me };
     let wr: &World = &w;
     let prog: &Prog = &wr.prog;
     let def = &prog.tasks[me];
@@ -307,6 +335,7 @@ async fn run_task(w: Arc<World>, me: usize, is_async: bool) {
     let mut pc = 0usize;
     while pc < def.ops.len() {
         let op = &def.ops[pc];
+        wr.sink.with_current(|l| l.cur_pc[me] = Some(pc));
         let obs: Option<i64> = match op {
             Op::Lock(m) => Some(if mg[*m].is_some() {
                 SKIP
@@ -596,10 +625,12 @@ async fn run_task(w: Arc<World>, me: usize, is_async: bool) {
                 None => SKIP,
                 Some(Handle::Thread(h)) => {
                     h.join().expect("joined thread panicked");
+                    wr.sink.with_current(|l| l.joined[*t] = true);
                     1
                 }
                 Some(Handle::Fut(h)) => {
                     let r = if is_async { h.await } else { sfuture::block_on(h) };
+                    wr.sink.with_current(|l| l.joined[*t] = true);
                     match r {
                         Ok(()) => 1,
                         Err(_) => 3,
@@ -733,7 +764,8 @@ async fn run_task(w: Arc<World>, me: usize, is_async: bool) {
             }
             Op::ResetSteps => {
                 shuttle::current::reset_step_count();
-                Some(0)
+                // observation = number of steps recorded so far (the position the count restarts from)
+                Some(shuttle_engine::runtime::execution::CurrentSchedule::len() as i64)
             }
         };
         if let Some(o) = obs {
@@ -742,9 +774,13 @@ async fn run_task(w: Arc<World>, me: usize, is_async: bool) {
         }
         pc += 1;
     }
-    if me == 0 {
-        wr.sink.with_current(|l| l.main_done = true);
-    }
+    wr.sink.with_current(|l| {
+        l.cur_pc[me] = None;
+        l.exiting[me] = true;
+        if me == 0 {
+            l.main_done = true;
+        }
+    });
     // End of task: release in a fixed order — kept acquisition, mutex guards (index order), rwlock
     // guards, join handles (detaches futures), sender ends, receiver. The model mirrors this order.
     drop(acq);
@@ -771,6 +807,9 @@ pub fn body(prog: Arc<Prog>, sink: Sink, opts: Opts) -> impl Fn() + Send + Sync 
         sink.logs.lock().unwrap().push(ExecLog {
             spawn_ids: vec![None; prog.tasks.len()],
             self_ids: vec![None; prog.tasks.len()],
+            cur_pc: vec![None; prog.tasks.len()],
+            exiting: vec![false; prog.tasks.len()],
+            joined: vec![false; prog.tasks.len()],
             ..Default::default()
         });
         let w = World::new(prog.clone(), sink.clone(), opts);
